@@ -271,7 +271,7 @@ class GC(FileStorageFormatter):
                 "The database has already been packed to a later time"
                 " or no changes have been made since the last pack")
 
-    def findReachableAtPacktime(self, roots):
+    def findReachableAtPacktime(self, roots, missing_ok=False):
         """Mark all objects reachable from the oids in roots as reachable."""
         reachable = self.reachable
         oid2curpos = self.oid2curpos
@@ -288,6 +288,8 @@ class GC(FileStorageFormatter):
                 if oid == z64 and len(oid2curpos) == 0:
                     # special case, pack to before creation time
                     continue
+                if missing_ok:
+                    continue
                 raise KeyError(oid)
 
             reachable[oid] = pos
@@ -302,6 +304,11 @@ class GC(FileStorageFormatter):
         # non-current revision could refer to objects that were
         # otherwise unreachable at the packtime.
         extra_roots = []
+        # Revisions, current at the pack time, of objects that were
+        # unreachable then and are kept only because they are written
+        # later.  Being garbage, they may refer to objects that have
+        # been removed already (external garbage collection).
+        garbage_roots = []
 
         pos = self.packpos
         while pos < self.eof:
@@ -323,7 +330,7 @@ class GC(FileStorageFormatter):
                     cur = self.oid2curpos.get(dh.oid)
                     if cur is not None:
                         self.reachable[dh.oid] = cur
-                        extra_roots.append(cur)
+                        garbage_roots.append(cur)
 
                 if dh.back and dh.back < self.packpos:
                     if dh.oid in self.reachable:
@@ -349,6 +356,10 @@ class GC(FileStorageFormatter):
         for pos in extra_roots:
             refs = self.findrefs(pos)
             self.findReachableAtPacktime(refs)
+
+        for pos in garbage_roots:
+            refs = self.findrefs(pos)
+            self.findReachableAtPacktime(refs, missing_ok=True)
 
     def findrefs(self, pos):
         """Return a list of oids referenced as of packtime."""
